@@ -11,6 +11,7 @@ import (
 	"github.com/consensys/gnark/constraint"
 	"github.com/consensys/gnark/frontend"
 	"github.com/consensys/gnark/frontend/cs/r1cs"
+	"github.com/consensys/gnark/frontend/cs/scs"
 	"github.com/wormhole-foundation/example-near-light-client/plonk/gates"
 	"github.com/wormhole-foundation/example-near-light-client/variables"
 	"github.com/wormhole-foundation/example-near-light-client/verifier"
@@ -323,7 +324,7 @@ func init() {
 						cs = append(cs, fw.Case{ID: fmt.Sprintf("desc/%s/%s/%d/%s", name, d.What, d.I, trunc(d.Arg, 40)+fmt.Sprint(len(d.Arg))), Kind: "desc", P: map[string]any{"inst": name, "what": d.What, "i": d.I, "arg": d.Arg}})
 					}
 				}
-				// the whole verifier (k=1 restriction) compiled with gnark's real R1CS builder and
+				// the whole verifier (all query rounds) compiled with gnark's real R1CS builder and
 				// solved with the real solver: honest witness + tampered witnesses
 				ncomp := 10
 				cinst := []string{"A_testdata"}
@@ -332,9 +333,15 @@ func init() {
 					cinst = []string{"A_testdata", "B_random_CGZ"}
 				}
 				for _, n := range cinst {
-					cs = append(cs, fw.Case{ID: "compiled/" + n + "/honest", Kind: "compiled", P: map[string]any{"inst": n, "i": -1}})
-					for i := 0; i < ncomp; i++ {
-						cs = append(cs, fw.Case{ID: fmt.Sprintf("compiled/%s/tamper/%d", n, i), Kind: "compiled", P: map[string]any{"inst": n, "i": i}})
+					systems := []string{"r1cs"}
+					if !ctx.Quick && n == "A_testdata" {
+						systems = []string{"r1cs", "scs"}
+					}
+					for _, sys := range systems {
+						cs = append(cs, fw.Case{ID: "compiled/" + sys + "/" + n + "/honest", Kind: "compiled", P: map[string]any{"inst": n, "i": -1, "sys": sys}})
+						for i := 0; i < ncomp; i++ {
+							cs = append(cs, fw.Case{ID: fmt.Sprintf("compiled/%s/%s/tamper/%d", sys, n, i), Kind: "compiled", P: map[string]any{"inst": n, "i": i, "sys": sys}})
+						}
 					}
 				}
 				// another round's (valid) openings presented for round j, with a forged bit decomposition of
@@ -535,12 +542,19 @@ func init() {
 					o.Inc("tampered_second_proof_rejected")
 					o.Sample = map[string]any{"second_proof_change": l.Path + " " + desc, "verdict": resStr(res)}
 				case "compiled":
-					in := getInst(name).Restrict(1)
-					cp := ctx.Once("bigcs/"+name, func() any {
+					in := getInst(name) // the full instance: all query rounds
+					sys := c.Str("sys")
+					cp := ctx.Once("bigcs/"+sys+"/"+name, func() any {
 						var cs constraint.ConstraintSystem
 						var err error
-						harn.Protect(func() {
-							cs, err = frontend.Compile(ecc.BN254.ScalarField(), r1cs.NewBuilder, in.Clone().VerifierCircuit())
+						var nb frontend.NewBuilder = r1cs.NewBuilder
+						if sys == "scs" {
+							nb = scs.NewBuilder
+						}
+						harn.Big(func() {
+							harn.Protect(func() {
+								cs, err = frontend.Compile(ecc.BN254.ScalarField(), nb, in.Clone().VerifierCircuit())
+							})
 						})
 						if err != nil {
 							return err
@@ -560,15 +574,15 @@ func init() {
 					}
 					if c.Int("i") < 0 {
 						if err := solve(in.Clone()); err != nil {
-							return fw.Violate("compiled_r1cs_rejects_valid_proof", fmt.Sprintf("%s k=1: %v", name, trunc(err.Error(), 200)))
+							return fw.Violate("compiled_"+sys+"_rejects_valid_proof", fmt.Sprintf("%s (all %d rounds): %v", name, in.K, trunc(err.Error(), 200)))
 						}
 						res := runVerifier(in.Clone(), engine.Options{Face: engine.Commit})
 						if res.Verdict != engine.Accept {
-							return fw.Inconcl("engine (commit face) rejects the valid k=1 instance: " + resStr(res))
+							return fw.Inconcl("engine (commit face) rejects the valid instance: " + resStr(res))
 						}
 						o.Events += events(res)
-						o.Add("compiled_r1cs_constraints", ccs.GetNbConstraints())
-						o.Inc("compiled_r1cs_honest_solved")
+						o.Add("compiled_"+sys+"_constraints", ccs.GetNbConstraints())
+						o.Inc("compiled_" + sys + "_honest_solved")
 						o.Sample = map[string]any{"constraints": ccs.GetNbConstraints(), "honest": "solved"}
 						return o
 					}
@@ -585,12 +599,12 @@ func init() {
 					res := runVerifier(t, engine.Options{Face: engine.Native})
 					o.Events += events(res) + 1
 					if err == nil {
-						return fw.Violate("compiled_r1cs_accepts_tampered:"+l.Kind+":"+pert, fmt.Sprintf("case %s: %s %s: gnark's R1CS solver found the tampered witness satisfying (engine: %s)", c.ID, l.Path, desc, resStr(res)))
+						return fw.Violate("compiled_"+sys+"_accepts_tampered:"+l.Kind+":"+pert, fmt.Sprintf("case %s: %s %s: gnark's %s solver found the tampered witness satisfying (engine: %s)", c.ID, l.Path, desc, sys, resStr(res)))
 					}
 					if res.Verdict == engine.Accept {
 						return fw.Violate("accepts_tampered:"+l.Kind+":"+pert, fmt.Sprintf("case %s: engine ACCEPTED while the compiled system rejects", c.ID))
 					}
-					o.Inc("compiled_r1cs_and_engine_agree_reject")
+					o.Inc("compiled_" + sys + "_and_engine_agree_reject")
 					o.Sample = map[string]any{"leaf": l.Path, "change": desc, "solver": trunc(err.Error(), 60), "engine": resStr(res)}
 				case "pair":
 					in := getInst(name).Clone()
